@@ -37,6 +37,9 @@ func init() {
 	intrinsics[wsu+"WriteClientText"] = write
 	intrinsics[wsu+"ReadClientText"] = read
 	intrinsics[wsu+"ReadServerText"] = read
+	intrinsics[wsp+"ReadFrame"] = func(m *Machine, g *G, fr *Frame, in ssa.Instruction, args []Value) {
+		m.callHarness(g, fr, in, "verifWsReadFrame", []Value{args[0]}, nil)
+	}
 	intrinsics["("+wsp+"Dialer).Dial"] = func(m *Machine, g *G, fr *Frame, in ssa.Instruction, args []Value) {
 		hs := zero(m.namedType("github.com/gobwas/ws", "Handshake"))
 		m.callHarness(g, fr, in, "verifWsDial", []Value{args[2]}, func(res Value) Value {
